@@ -134,7 +134,7 @@ func histSig(h map[string]interface{}) string {
 }
 
 func checkC06(c *Ctx) {
-	nHist, maxOps, per := 20000, 40, 250
+	nHist, maxOps, per := 40000, 40, 250
 	if c.Tier == "thorough" {
 		nHist, maxOps, per = 400000, 60, 500
 	}
@@ -214,7 +214,7 @@ func genDLHistory(r *kernel.Rand, maxOps int) map[string]interface{} {
 }
 
 func checkC10(c *Ctx) {
-	nHist, maxOps, per := 12000, 40, 150
+	nHist, maxOps, per := 30000, 40, 150
 	if c.Tier == "thorough" {
 		nHist, maxOps, per = 300000, 80, 300
 	}
@@ -330,7 +330,7 @@ func incBytes(a []byte, d uint64) []byte {
 }
 
 func checkC15(c *Ctx) {
-	nHist, maxOps, per := 6000, 12, 100
+	nHist, maxOps, per := 40000, 12, 200
 	if c.Tier == "thorough" {
 		nHist, maxOps, per = 400000, 24, 400
 	}
